@@ -6,7 +6,7 @@ package main
 //
 // Case lines (model-compared):
 //	schema <id> <tokens...>                       | ok
-//	enc <id> 0 <f|s> <value...>                        | ok <deterministic Marshal bytes> <Size>  or  utf8
+//	enc <id> 0 <f|s> <value...>                        | ok <deterministic Marshal bytes> <Size> v1  or  utf8   (v1: the model's msg_valid holds)
 //	dec <id> 0 <f|s> <limit> <bytes>              | ok <canonical dump>  or  e1/e2/e3
 // P lines: C03 (Unmarshal(Marshal(m)) not Equal m, all flavours/options), C04 (Size != len(Marshal),
 // MarshalAppend does not extend the prefix).
@@ -14,6 +14,8 @@ package main
 import (
 	"bytes"
 	"fmt"
+	"sort"
+	"strings"
 
 	"google.golang.org/protobuf/encoding/protowire"
 	"google.golang.org/protobuf/proto"
@@ -21,7 +23,14 @@ import (
 	"google.golang.org/protobuf/types/dynamicpb"
 )
 
-func init() { Register("msg", famMsg) }
+func init() {
+	Register("msg", famMsg)
+	Register("msgsize", func(c *Ctx) { msgSizeOnly = true; famMsg(c) })
+}
+
+// msgSizeOnly: family "msgsize" (C04) -- only the enc case (bytes + Size against the model) and the
+// Size / MarshalAppend predicates, no decoding; its case lines belong to model family "msg".
+var msgSizeOnly bool
 
 var msgDetOpts = proto.MarshalOptions{Deterministic: true, AllowPartial: true}
 var msgDefOpts = proto.MarshalOptions{AllowPartial: true}
@@ -41,13 +50,17 @@ func msgFlavoursOf(mt protoreflect.MessageType) []msgFlavour {
 	de := msgDepthExact(mt)
 	return []msgFlavour{
 		{de, msgLegacyReach(md), "gen", md, func() protoreflect.Message { return mt.New() }, false},
-		{de, false, "dyn", md, func() protoreflect.Message { return dynamicpb.NewMessage(md) }, true},
+		{true, false, "dyn", md, func() protoreflect.Message { return dynamicpb.NewMessage(md) }, true},
 	}
 }
 
 func msgUnmarshal(fl msgFlavour, b []byte, limit int, nolazy bool) (protoreflect.Message, error) {
 	m := fl.new()
-	err := proto.UnmarshalOptions{AllowPartial: true, RecursionLimit: limit, NoLazyDecoding: nolazy}.Unmarshal(b, m.Interface())
+	o := proto.UnmarshalOptions{AllowPartial: true, RecursionLimit: limit, NoLazyDecoding: nolazy}
+	if fl.slow {
+		o.Resolver = msgDynTypes()
+	}
+	err := o.Unmarshal(b, m.Interface())
 	return m, err
 }
 
@@ -131,6 +144,11 @@ func msgRoundTrip(c *Ctx, fl msgFlavour, m protoreflect.Message) {
 			m2, err := msgUnmarshal(fl, b, 0, nolazy)
 			what := fmt.Sprintf("%s %s opts=%d nolazy=%v", fl.name, fl.md.FullName(), oi, nolazy)
 			if err != nil {
+				if fl.slow && msgErrClass(err) == "e1" && msgFB3Class(fl.md, b) {
+					c.Known("FB3", "C03", "reflection path: ConsumeGroup budget exhausted by unknown groups nested in a known group")
+					c.Stat("known_FB3")
+					continue
+				}
 				c.PropFail("C03", "Unmarshal(Marshal(m)) fails: "+msgErrClass(err)+" "+what, HexB(b))
 				continue
 			}
@@ -231,14 +249,180 @@ func msgSizeChecks(c *Ctx, fl msgFlavour, m protoreflect.Message) {
 		}
 		if oi != 1 {
 			// same content up to map order: it must decode to an equal message
-			m2 := fl.new()
 			if msgLegacyReach(fl.md) && msgFB1Class(fl.md, out[plen:]) {
 				continue // finding FB1 (reported under C03)
 			}
-			if err := (proto.UnmarshalOptions{AllowPartial: true, NoLazyDecoding: true}).Unmarshal(out[plen:], m2.Interface()); err != nil ||
-				!proto.Equal(m.Interface(), m2.Interface()) {
+			if m2, err := msgUnmarshal(fl, out[plen:], 0, true); err != nil || !proto.Equal(m.Interface(), m2.Interface()) {
 				c.PropFail("C04", "MarshalAppend output does not decode to m: "+what, HexB(out))
 			}
+		}
+	}
+}
+
+// msgSubSites collects the mutable sub-messages of m (singular message fields, list elements,
+// map values, oneof message members, message-typed extensions), m itself excluded, and the
+// populated list fields as (message, field) pairs.
+type msgListSite struct {
+	m  protoreflect.Message
+	fd protoreflect.FieldDescriptor
+}
+
+func msgSubSites(m protoreflect.Message, subs *[]protoreflect.Message, lists *[]msgListSite, depth int) {
+	if depth <= 0 {
+		return
+	}
+	m.Range(func(fd protoreflect.FieldDescriptor, v protoreflect.Value) bool {
+		switch {
+		case fd.IsMap():
+			if fd.MapValue().Message() != nil {
+				mp := m.Mutable(fd).Map()
+				var keys []protoreflect.MapKey
+				mp.Range(func(k protoreflect.MapKey, _ protoreflect.Value) bool { keys = append(keys, k); return true })
+				sort.Slice(keys, func(i, j int) bool { return msgKeyLess(keys[i], keys[j]) })
+				for _, k := range keys {
+					sub := mp.Mutable(k).Message()
+					*subs = append(*subs, sub)
+					msgSubSites(sub, subs, lists, depth-1)
+				}
+			}
+		case fd.IsList():
+			if !fd.IsExtension() {
+				*lists = append(*lists, msgListSite{m, fd})
+			}
+			if fd.Message() != nil {
+				l := v.List()
+				for i := 0; i < l.Len(); i++ {
+					sub := l.Get(i).Message()
+					*subs = append(*subs, sub)
+					msgSubSites(sub, subs, lists, depth-1)
+				}
+			}
+		case fd.Message() != nil:
+			sub := v.Message()
+			*subs = append(*subs, sub)
+			msgSubSites(sub, subs, lists, depth-1)
+		}
+		return true
+	})
+}
+
+// msgInPlaceChecks (C04, C16): after Size/Marshal have run once (size caches filled), sub-messages
+// are shrunk or grown in place through protoreflect; Size, Marshal and MarshalAppend must follow.
+func msgInPlaceChecks(c *Ctx, fl msgFlavour, m protoreflect.Message) {
+	defer func() {
+		if r := recover(); r != nil {
+			c.Stat("inplace_panic")
+			c.Sample(fmt.Sprintf("in-place mutation panic %s %s: %v", fl.name, fl.md.FullName(), r))
+		}
+	}()
+	for round := 0; round < 2; round++ {
+		// fill the caches
+		msgDefOpts.Size(m.Interface())
+		if _, err := msgDetOpts.Marshal(m.Interface()); err != nil {
+			return
+		}
+		var subs []protoreflect.Message
+		var lists []msgListSite
+		msgSubSites(m, &subs, &lists, 4)
+		if len(subs) == 0 && len(lists) == 0 {
+			return
+		}
+		// Range order of maps is random: sort the sites by nothing observable would be wrong, so the
+		// choice is made by index into the deterministic part only when there are no map fields;
+		// determinism of the run is not needed for a predicate that must hold for every choice.
+		what := ""
+		for k := 1 + c.Intn(3); k > 0; k-- {
+			switch {
+			case len(subs) > 0 && c.Intn(3) != 0:
+				sub := subs[c.Intn(len(subs))]
+				switch c.Intn(3) {
+				case 0: // empty but present
+					var fds []protoreflect.FieldDescriptor
+					sub.Range(func(fd protoreflect.FieldDescriptor, _ protoreflect.Value) bool { fds = append(fds, fd); return true })
+					for _, fd := range fds {
+						sub.Clear(fd)
+					}
+					sub.SetUnknown(nil)
+					what += "clear;"
+				case 1: // set a scalar field (crossing varint-length boundaries both ways)
+					fds := sub.Descriptor().Fields()
+					for try := 0; try < 8 && fds.Len() > 0; try++ {
+						fd := fds.Get(c.Intn(fds.Len()))
+						if fd.Message() == nil && !fd.IsList() && !fd.IsMap() {
+							sub.Set(fd, msgScalar(c, fd, false))
+							what += "set;"
+							break
+						}
+					}
+				default: // unknown fields come and go
+					if c.Bool() {
+						sub.SetUnknown(nil)
+					} else {
+						sub.SetUnknown(msgGenUnknown(c, sub.Descriptor()))
+					}
+					what += "unknown;"
+				}
+			case len(lists) > 0:
+				ls := lists[c.Intn(len(lists))]
+				l := ls.m.Mutable(ls.fd).List()
+				if c.Bool() && l.Len() > 0 {
+					l.Truncate(c.Intn(l.Len()))
+					what += "truncate;"
+				} else if ls.fd.Message() != nil {
+					l.Append(l.NewElement())
+					what += "append-msg;"
+				} else {
+					for j := 1 + c.Intn(130); j > 0; j-- {
+						l.Append(msgScalar(c, ls.fd, false))
+					}
+					what += "append;"
+				}
+			}
+		}
+		c.Stat("inplace_rounds")
+		tag := fmt.Sprintf("after in-place mutation (%s) %s %s", what, fl.name, fl.md.FullName())
+		det, err := msgDetOpts.Marshal(m.Interface())
+		if err != nil {
+			if msgErrClass(err) != "e3" {
+				c.PropFail("C04", "Marshal fails "+tag+": "+err.Error())
+			}
+			return
+		}
+		for oi, opts := range []proto.MarshalOptions{msgDefOpts, msgDetOpts} {
+			sz := opts.Size(m.Interface())
+			b, err := opts.Marshal(m.Interface())
+			if err != nil {
+				c.PropFail("C04", fmt.Sprintf("Marshal fails %s opts=%d: %v", tag, oi, err))
+				return
+			}
+			if sz != len(b) {
+				c.PropFail("C04", fmt.Sprintf("Size=%d but len(Marshal)=%d %s opts=%d", sz, len(b), tag, oi), HexB(b))
+			}
+			// the cache was just refreshed by Size: the cached size must be the same
+			if csz := (proto.MarshalOptions{AllowPartial: true, Deterministic: oi == 1, UseCachedSize: true}).Size(m.Interface()); csz != sz {
+				c.PropFail("C04", fmt.Sprintf("cached Size=%d but Size=%d %s opts=%d", csz, sz, tag, oi))
+			}
+			prefix := c.Bytes(c.Intn(4))
+			buf := make([]byte, len(prefix), len(prefix)+c.Intn(sz+8))
+			copy(buf, prefix)
+			out, err := opts.MarshalAppend(buf, m.Interface())
+			if err != nil || len(out) != len(prefix)+sz || !bytes.Equal(out[:len(prefix)], prefix) {
+				c.PropFail("C04", fmt.Sprintf("MarshalAppend is not prefix ++ Size bytes %s opts=%d err=%v", tag, oi, err))
+			} else if oi == 1 && !bytes.Equal(out[len(prefix):], det) {
+				c.PropFail("C04", "MarshalAppend differs from prefix ++ Marshal "+tag, HexB(out), HexB(det))
+			}
+		}
+		// the bytes are those of a message rebuilt from them (no stale state leaks into the output)
+		if msgLegacyReach(fl.md) && msgFB1Class(fl.md, det) {
+			continue
+		}
+		if m2, err := msgUnmarshal(fl, det, 0, true); err != nil {
+			c.PropFail("C04", "bytes "+tag+" do not decode: "+msgErrClass(err), HexB(det))
+		} else if det2, err := msgDetOpts.Marshal(m2.Interface()); err != nil || !bytes.Equal(det, det2) {
+			if fl.slow && msgFB3Class(fl.md, det) {
+				continue
+			}
+			c.PropFail("C04", "bytes "+tag+" differ from those of a binary-rebuilt copy", HexB(det), HexB(det2))
 		}
 	}
 }
@@ -277,12 +461,20 @@ func msgOneValue(c *Ctx, fl msgFlavour, id string, depth int) {
 			c.Case("msg", "enc", append([]string{id, "0", mode}, val...), []string{"utf8"})
 		} else {
 			c.PropFail("C03", "Marshal fails: "+err.Error()+" "+string(fl.md.FullName()))
+			if strings.Contains(err.Error(), "size mismatch") {
+				// the marshaler noticed that a computed size differs from the bytes it wrote
+				c.PropFail("C04", "Marshal reports a size mismatch: "+err.Error()+" "+string(fl.md.FullName()))
+			}
 		}
 		return
 	}
 	c.Stat("enc_" + fl.name + "_ok")
-	c.Case("msg", "enc", append([]string{id, "0", mode}, val...), []string{"ok", HexB(det), HexN(uint64(msgDetOpts.Size(m.Interface())))})
+	c.Case("msg", "enc", append([]string{id, "0", mode}, val...), []string{"ok", HexB(det), HexN(uint64(msgDetOpts.Size(m.Interface()))), "v1"})
 	msgSizeChecks(c, fl, m)
+	if msgSizeOnly {
+		msgInPlaceChecks(c, fl, m)
+		return
+	}
 	msgRoundTrip(c, fl, m)
 
 	// decode: canonical bytes, other valid encodings, merges, mutations, small recursion limits
@@ -320,7 +512,7 @@ func msgOneValue(c *Ctx, fl msgFlavour, id string, depth int) {
 	}
 	for i, in := range inputs {
 		limit := 0
-		if i > 0 && fl.depthExact && c.Intn(5) == 0 {
+		if i > 0 && c.Intn(5) == 0 {
 			limit = 1 + c.Intn(5)
 		}
 		for _, f2 := range all {
@@ -328,7 +520,11 @@ func msgOneValue(c *Ctx, fl msgFlavour, id string, depth int) {
 				c.Stat("dec_skipped_legacy")
 				continue
 			}
-			msgDecCase(c, f2, id, in, limit)
+			if f2.depthExact {
+				msgDecCase(c, f2, id, in, limit)
+			} else {
+				msgDecCase(c, f2, id, in, 0)
+			}
 		}
 	}
 }
@@ -359,6 +555,61 @@ func msgCorpus(c *Ctx) {
 			}
 		}
 	}
+	// FB4 (repaired in /repo; regression inputs): map entries in which the key -- or the value --
+	// occurs with an accepted wire type and then again with a rejected one, and the other way
+	// round; dynamicpb used to panic on the first shape ("cannot convert nil to map key").  A
+	// panic or a disagreement with the model here is a plain C03 failure.
+	for _, mt := range msgAllTypes() {
+		if mt.Descriptor().FullName() != "goproto.proto.testeditions.TestAllTypes" {
+			continue
+		}
+		fls := msgFlavoursOf(mt)
+		id := msgSchemaOf(c, mt.Descriptor())
+		entry := func(num protowire.Number, fields ...[]byte) []byte {
+			var e []byte
+			for _, f := range fields {
+				e = append(e, f...)
+			}
+			return protowire.AppendBytes(protowire.AppendTag(nil, num, protowire.BytesType), e)
+		}
+		vi := func(n protowire.Number, v uint64) []byte {
+			return protowire.AppendVarint(protowire.AppendTag(nil, n, protowire.VarintType), v)
+		}
+		f32 := func(n protowire.Number, v uint32) []byte {
+			return protowire.AppendFixed32(protowire.AppendTag(nil, n, protowire.Fixed32Type), v)
+		}
+		f64 := func(n protowire.Number, v uint64) []byte {
+			return protowire.AppendFixed64(protowire.AppendTag(nil, n, protowire.Fixed64Type), v)
+		}
+		ln := func(n protowire.Number, v string) []byte {
+			return protowire.AppendString(protowire.AppendTag(nil, n, protowire.BytesType), v)
+		}
+		grp := func(n protowire.Number) []byte {
+			return protowire.AppendTag(protowire.AppendTag(nil, n, protowire.StartGroupType), n, protowire.EndGroupType)
+		}
+		inputs := [][]byte{
+			{0xc2, 0x03, 0x07, 0x08, 0x01, 0x0d, 0, 0, 0, 0},       // the FB4 witness: map_int32_int32 {key 1, key as fixed32}
+			entry(56, f32(1, 7), vi(1, 1)),                         // rejected first, accepted later
+			entry(56, vi(1, 1), f32(1, 7), vi(1, 2)),               // accepted, rejected, accepted
+			entry(56, vi(1, 1), vi(2, 5), f64(2, 9)),               // value: accepted then rejected
+			entry(56, vi(1, 1), ln(2, "x"), vi(2, 5)),              // value: rejected then accepted
+			entry(57, vi(1, 3), ln(1, "k")),                        // int64 key, then LEN
+			entry(60, vi(1, 3), grp(1)),                            // sint32 key, then a group
+			entry(62, f32(1, 3), vi(1, 4)),                         // fixed32 key, then varint
+			entry(63, f64(1, 3), f32(1, 4)),                        // fixed64 key, then fixed32
+			entry(68, vi(1, 1), f64(1, 0)),                         // bool key, then fixed64
+			entry(69, ln(1, "k"), vi(1, 4), ln(2, "v")),            // string key, then varint
+			entry(69, ln(1, "k"), ln(2, "v"), f32(2, 1)),           // string value, then fixed32
+			entry(71, ln(1, "k"), vi(1, 4), ln(2, ""), vi(2, 1)),   // message value, then varint
+			entry(73, ln(1, "k"), f32(1, 4), vi(2, 1), ln(2, "e")), // enum value, then LEN
+			entry(66, vi(1, 1), f32(2, 0x7fc00000), vi(2, 1)),      // float value, then varint
+		}
+		for _, in := range inputs {
+			for _, fl := range fls {
+				msgDecCase(c, fl, id, in, 0)
+			}
+		}
+	}
 	// FB1: legacy message field 4 (optional Message) occurs as fixed32
 	if fl, ok := find("google.golang.org.proto2_20160225.SiblingMessage"); ok {
 		m := fl.new()
@@ -371,8 +622,95 @@ func msgCorpus(c *Ctx) {
 	}
 }
 
+// msgDeepCorpus: nesting at the recursion limit.
+func msgDeepCorpus(c *Ctx) {
+	var tat protoreflect.MessageType
+	for _, mt := range msgAllTypes() {
+		if mt.Descriptor().FullName() == "goproto.proto.test.TestAllTypes" {
+			tat = mt
+		}
+	}
+	if tat == nil {
+		c.PropFail("C03", "corpus type not linked: goproto.proto.test.TestAllTypes")
+		return
+	}
+	fls := msgFlavoursOf(tat)
+	id := msgSchemaOf(c, tat.Descriptor())
+	// FB3: optionalgroup (field 16) holding an unknown group (field 1000) nested 10001 deep
+	deep := c.Intn(3) == 0 // the expensive boundary cases run in about a third of the shards
+	for _, levels := range []int{10000, 10001} {
+		if levels == 10000 && !deep {
+			continue
+		}
+		var u []byte
+		for i := 0; i < levels; i++ {
+			u = protowire.AppendTag(u, 1000, protowire.StartGroupType)
+		}
+		for i := 0; i < levels; i++ {
+			u = protowire.AppendTag(u, 1000, protowire.EndGroupType)
+		}
+		gfd := tat.Descriptor().Fields().ByNumber(16)
+		for _, fl := range fls {
+			m := fl.new()
+			m.Mutable(gfd).Message().SetUnknown(u)
+			msgRoundTrip(c, fl, m)
+			// 40 kB nested 10000 deep: costly for the extracted model, most of all the accepted
+			// case on the reflection path (scanned twice), which is left to the predicate above
+			if b, err := msgDetOpts.Marshal(m.Interface()); err == nil && (deep || c.Intn(2) == 0) && !(fl.slow && levels == 10000) {
+				msgDecCase(c, fl, id, b, 0)
+			}
+		}
+	}
+	// nesting at the recursion limit L (levels = number of nested messages, the top-level one
+	// included): chains TestAllTypes -(18)-> NestedMessage -(2)-> TestAllTypes ..., the same
+	// through map entries (71: map<string, NestedMessage>; an entry costs one more level) and
+	// through groups (16: optionalgroup -(1000)-> NestedMessage -(2)-> TestAllTypes).
+	wrap := func(num protowire.Number, b []byte) []byte {
+		nb := protowire.AppendTag(make([]byte, 0, len(b)+8), num, protowire.BytesType)
+		return protowire.AppendBytes(nb, b)
+	}
+	for _, L := range []int{1, 2, 3, 4, 7, 50, 100} {
+		for _, levels := range []int{L - 1, L, L + 1} {
+			if levels < 1 {
+				continue
+			}
+			// (a) plain sub-messages
+			var b []byte
+			for i := 1; i < levels; i++ {
+				if (levels-i)%2 == 0 {
+					b = wrap(2, b)
+				} else {
+					b = wrap(18, b)
+				}
+			}
+			// (b) through map entries: TestAllTypes -(71 entry)-(2)-> NestedMessage -(2)-> TestAllTypes
+			var mb []byte
+			for used := 1; used+3 <= levels; used += 3 {
+				mb = wrap(71, wrap(2, wrap(2, mb)))
+			}
+			// (c) through groups
+			var gb []byte
+			for used := 1; used+3 <= levels; used += 3 {
+				inner := wrap(1000, wrap(2, gb))
+				gb = protowire.AppendTag(nil, 16, protowire.StartGroupType)
+				gb = append(gb, inner...)
+				gb = protowire.AppendTag(gb, 16, protowire.EndGroupType)
+			}
+			for _, fl := range fls {
+				msgDecCase(c, fl, id, b, L)
+				msgDecCase(c, fl, id, mb, L)
+				msgDecCase(c, fl, id, gb, L)
+			}
+		}
+	}
+	_ = deep
+}
+
 func famMsg(c *Ctx) {
-	msgCorpus(c)
+	if !msgSizeOnly {
+		msgCorpus(c)
+		msgDeepCorpus(c)
+	}
 	types := msgAllTypes()
 	c.StatN("linked_types", len(types))
 	// budget: c.N random contents in total; every linked type gets at least one per run when
